@@ -32,6 +32,14 @@ pub fn run_raw(p: &[u8], mem: &mut [u8]) -> Out {
     }
 }
 
+fn both(p: &[u8]) -> (Option<u64>, Option<u64>) {
+    let mut vm = rbpf::EbpfVmNoData::new(Some(p)).unwrap();
+    let a = vm.execute_program().ok();
+    vm.jit_compile().unwrap();
+    let b = unsafe { vm.execute_program_jit() }.ok();
+    (a, b)
+}
+
 fn quiet<T>(f: impl FnOnce() -> T) -> T {
     let hook = std::panic::take_hook();
     std::panic::set_hook(Box::new(|_| {}));
@@ -191,6 +199,68 @@ fn run_inner(id: &str) -> Option<(bool, String)> {
             let refused = vm.set_program(&bad, 0, 8).is_err();
             let after = vm.execute_program(unsafe { &mut *(&mut pkt as *mut [u8; 8]) }).ok();
             (refused && before != after, format!("failed set_program(bad, 0, 8) on a VM configured with offsets (0x40, 0x50): execute_program before {:?}, after {:?} (must be identical)", before, after))
+        }
+        "jit-fixedmbuff-data-end" => {
+            // returns data_end - data as read from the metadata buffer
+            let p = prog(&[
+                i(ebpf::LD_DW_REG, 2, 1, 0x40, 0),
+                i(ebpf::LD_DW_REG, 0, 1, 0x50, 0),
+                i(ebpf::SUB64_REG, 0, 2, 0, 0),
+                i(ebpf::EXIT, 0, 0, 0, 0),
+            ]);
+            let mut vm = rbpf::EbpfVmFixedMbuff::new(Some(&p), 0x40, 0x50).unwrap();
+            let mut pkt = [0x11u8; 8];
+            let interp = vm.execute_program(unsafe { &mut *(&mut pkt as *mut [u8; 8]) }).ok();
+            vm.jit_compile().unwrap();
+            let jit = unsafe { vm.execute_program_jit(&mut *(&mut pkt as *mut [u8; 8])) }.ok();
+            (interp != jit, format!("fixed-metadata VM, 8-byte packet of 0x11: data_end - data is {:?} interpreted and {:?} JIT-compiled (must both be 8)", interp, jit))
+        }
+        "jit-mov32-reg" => {
+            let p = prog(&[i(ebpf::LD_DW_IMM, 1, 0, 0, 0x55667788), i(0, 0, 0, 0, 0x11223344), i(ebpf::MOV32_REG, 0, 1, 0, 0), i(ebpf::EXIT, 0, 0, 0, 0)]);
+            let (a, b) = both(&p);
+            (a != b, format!("mov32 r0, r1 with r1 = 0x1122334455667788: interpreter {:?}, JIT {:?}", a, b))
+        }
+        "jit-le-no-truncation" => {
+            let p = prog(&[i(ebpf::LD_DW_IMM, 0, 0, 0, 0x55667788), i(0, 0, 0, 0, 0x11223344), i(ebpf::LE, 0, 0, 0, 16), i(ebpf::EXIT, 0, 0, 0, 0)]);
+            let (a, b) = both(&p);
+            (a != b, format!("le16 r0 with r0 = 0x1122334455667788: interpreter {:?}, JIT {:?}", a, b))
+        }
+        "jit-divmod-pc-u16" => {
+            let mut v = vec![i(ebpf::MOV64_IMM, 0, 0, 0, 0); 65535];
+            v.push(i(ebpf::DIV64_REG, 0, 1, 0, 0)); // at pc 65535
+            v.push(i(ebpf::EXIT, 0, 0, 0, 0));
+            let p = prog(&v);
+            let r = catch_unwind(|| { let mut vm = rbpf::EbpfVmNoData::new(Some(&p)).unwrap(); vm.jit_compile().is_ok() });
+            (r.is_err(), format!("jit_compile of a verified program with `div64 r0, r1` at pc 65535: {:?}", r.map_err(|_| "panicked")))
+        }
+        "jit-helper-stack-alignment" => {
+            fn probe(_a: u64, _b: u64, _c: u64, _d: u64, _e: u64) -> u64 {
+                #[repr(align(16))]
+                struct A([u8; 16]);
+                let a = A([1; 16]);
+                let p = std::hint::black_box(&a) as *const A as u64;
+                p % 16
+            }
+            let p = prog(&[i(ebpf::CALL, 0, 0, 0, 1), i(ebpf::EXIT, 0, 0, 0, 0)]);
+            let mut vm = rbpf::EbpfVmNoData::new(Some(&p)).unwrap();
+            vm.register_helper(1, probe).unwrap();
+            let a = vm.execute_program().ok();
+            vm.jit_compile().unwrap();
+            let b = unsafe { vm.execute_program_jit() }.ok();
+            (b != Some(0), format!("address of a 16-byte aligned local inside a helper, modulo 16: interpreter {:?}, JIT {:?} (the ABI guarantees 0)", a, b))
+        }
+        "jit-local-call-r10" => {
+            // caller stores 1 at [r10-8], callee stores 2 at its own [r10-8], caller reads its slot back
+            let p = prog(&[
+                i(ebpf::ST_DW_IMM, 10, 0, -8, 1),
+                i(ebpf::CALL, 0, 1, 0, 2),
+                i(ebpf::LD_DW_REG, 0, 10, -8, 0),
+                i(ebpf::EXIT, 0, 0, 0, 0),
+                i(ebpf::ST_DW_IMM, 10, 0, -8, 2),
+                i(ebpf::EXIT, 0, 0, 0, 0),
+            ]);
+            let (a, b) = both(&p);
+            (a != b, format!("caller and callee both use [r10-8]: interpreter returns {:?} (separate frames), JIT returns {:?}", a, b))
         }
         _ => return None,
     })
